@@ -3,6 +3,7 @@ package mon
 import (
 	"fmt"
 	"math/big"
+	"sort"
 	"strings"
 
 	sdkmath "cosmossdk.io/math"
@@ -842,7 +843,7 @@ func (r *poolRun) checkConservation(what string) {
 	r.res.Count("conservation_checks", 1)
 	for _, t := range r.w.Tokens {
 		inflight := sdkmath.ZeroInt()
-		for cn := range t.Denom {
+		for _, cn := range sortedChains(t.Denom) {
 			if _, ok := r.w.Bridges[cn]; !ok {
 				continue
 			}
@@ -883,7 +884,7 @@ func (r *poolRun) checkConservation(what string) {
 // and is not committed to leave, a refusal means bridge-side funds are missing.
 func (r *poolRun) withdrawProbe() {
 	for _, t := range r.w.Tokens {
-		for cn := range t.Denom {
+		for _, cn := range sortedChains(t.Denom) {
 			if _, ok := r.w.Bridges[cn]; !ok || r.stuck[cn] {
 				continue
 			}
@@ -933,4 +934,14 @@ func (r *poolRun) netDeposited(cn string, t *fix.WToken) sdkmath.Int {
 		return v
 	}
 	return sdkmath.ZeroInt()
+}
+
+// sortedChains: fixed iteration order (a history must be a function of the seed only).
+func sortedChains(m map[string]string) []string {
+	out := make([]string, 0, len(m))
+	for k := range m {
+		out = append(out, k)
+	}
+	sort.Strings(out)
+	return out
 }
